@@ -23,7 +23,8 @@ from rv import gen
 ID = "C05"
 LEVEL = "exploration"
 RULE = ("A: seeded random chains pre* acc post*, pre in {total callable, Variable, Filter, "
-        "Slice(start, stop, step>=1) non-negative incl. None, RunIf}, 0..3 of them; acc in "
+        "Slice(start, stop, step>=1) non-negative incl. None, RunIf (also with several results "
+        "per value)}, 0..3 of them; acc in "
         "{Sum, DSum, Mean (pass_on_empty or not), StoreFilled (group or not), "
         "FillCompute(Count), VarianceMeanCount (4 option sets), Vectorize, Histogram, "
         "GroupBy}; post 0..2 of {callable, Variable, Filter, Count, Reverse, Slice incl. "
@@ -105,6 +106,12 @@ def rand_pre_el(rng, nflow):
     inner = [rand_simple(rng) for _ in range(rng.randint(0, 2))]
     if rng.random() < 0.15:
         inner.append(["slice", [rng.randint(0, 1)]])
+    if rng.random() < 0.3:
+        # several results per selected value (FillInto must fill all of them)
+        inner.insert(rng.randint(0, len(inner)),
+                     ["split", [[["call", rng.choice(CALLS)]], [["call", rng.choice(CALLS)]],
+                                [["filter", rng.choice(PREDN)]]][:rng.randint(2, 3)],
+                      rng.choice([1, 1000])])
     return ["runif", rng.choice(PREDN), inner]
 
 
